@@ -16,16 +16,16 @@ import (
 // C05 — directive order and file layout do not matter.
 
 type C05Case struct {
-	Original  string            `json:"original"` // single file, generation order
-	Variant   map[string]string `json:"variant"`  // permuted and/or distributed over an include tree
-	Main      string            `json:"main"`
-	FlagSets  [][]string        `json:"flag_sets"`
-	Sched     int               `json:"sched"`
-	Procs     string            `json:"procs"`
-	Moved     int               `json:"moved"`
-	Depth     int               `json:"depth"`
-	Damages   []string          `json:"damages,omitempty"`
-	Unshuffled bool             `json:"unshuffled,omitempty"`
+	Original   string            `json:"original"` // single file, generation order
+	Variant    map[string]string `json:"variant"`  // permuted and/or distributed over an include tree
+	Main       string            `json:"main"`
+	FlagSets   [][]string        `json:"flag_sets"`
+	Sched      int               `json:"sched"`
+	Procs      string            `json:"procs"`
+	Moved      int               `json:"moved"`
+	Depth      int               `json:"depth"`
+	Damages    []string          `json:"damages,omitempty"`
+	Unshuffled bool              `json:"unshuffled,omitempty"`
 }
 
 func init() { Register("C05", "permute-split", checkC05) }
